@@ -1,6 +1,6 @@
 """E-bounded: native contract runner (/verif/bounded) for functions outside verifier reach and as
 counterexample search.  Results are always labelled bounded."""
-import json, os, subprocess, time
+import json, os, re, subprocess, time
 from .driver import Res, ROOT, BUILD, log
 
 CRATE = os.path.join(ROOT, 'bounded')
@@ -63,13 +63,15 @@ def run_contract(name, prop, tier, seed, only=None):
         return [Res('bounded::' + name, 'bounded', 'ok', [prop], backend, secs, bounded=b, extra={'samples': d.get('samples', [])[:2]})], info
     out = []
     os.makedirs(os.path.join(ROOT, 'replays'), exist_ok=True)
-    for k, f in enumerate(d['failures'][:10]):
+    for k, f in enumerate(d['failures'][:25]):
+        mcls = re.match(r'\[([^\]]+)\]', f.get('what', ''))
+        klass = mcls.group(1) if mcls else None
         rp = os.path.join(ROOT, 'replays', 'bounded_%s_%d.json' % (name, k))
         with open(rp, 'w') as fh:
             json.dump(f['replay'], fh)
         out.append(Res('bounded::' + name, 'bounded', 'fail', [prop], backend, secs if k == 0 else 0,
                        '%s | %s' % (f['signature'][:600], f['what'][:1200]),
-                       replay={'signature': f['signature'][:300], 'input': f['replay'], 'what': f['what'][:600],
+                       replay={'signature': f['signature'][:300], 'klass': klass, 'input': f['replay'], 'what': f['what'][:600],
                                'native_cmd': '%s replay %s' % (BIN, rp)},
                        bounded=b))
     return out, info
